@@ -324,14 +324,19 @@ def judge_logs(ctx, res, fam, logs, crashes):
     rejected = []
     # model acceptance, one runner process per log
     verdicts = {}
-    for lp in logs:
+
+    def _accept(lp):
         if not os.path.exists(lp):
-            continue
+            return lp, 0, ""
         with open(lp, "rb") as f:
             data = f.read()
         rc, out = C.sh([C.runner("run_srv"), fam], stdin=data, timeout=3000)
-        if rc != 0 or "DONE" not in out:
-            # a partial (crashed) scenario at the end can make the parser fail: retry without it
+        return lp, rc, out
+
+    with cf.ThreadPoolExecutor(max_workers=SHARDS) as ex:
+        outs = list(ex.map(_accept, logs))
+    for lp, rc, out in outs:
+        if out and (rc != 0 or "DONE" not in out):
             res.notes.append("model runner failed on %s: %s" % (os.path.basename(lp), out[-300:]))
         for line in out.split("\n"):
             p = line.split(" ", 4)
